@@ -207,6 +207,9 @@ pub struct Host {
     /// the scenario itself keeps wakers of a task beyond that task's life (then the task's
     /// shared state, including its waitable set, legitimately outlives the task)
     pub wakers_outlive_tasks: bool,
+    /// scenario focus: make BLOCKED / STARTING the default (first) answer of the host so that
+    /// cancel / drop paths need fewer deviations
+    pub prefer_blocked: bool,
 }
 
 thread_local! {
@@ -247,6 +250,7 @@ impl Host {
             allow_partial: true,
             allow_peer_drop: true,
             wakers_outlive_tasks: false,
+            prefer_blocked: false,
         }
     }
 
@@ -450,6 +454,11 @@ impl Host {
                 if self.allow_peer_drop {
                     opts.push(pack(DROPPED, 0));
                 }
+                if self.prefer_blocked {
+                    if let Some(i) = opts.iter().position(|o| *o == BLOCKED) {
+                        opts.swap(0, i);
+                    }
+                }
                 let c = opts[choose("stream.write", opts.len())];
                 if c == BLOCKED {
                     self.streams[si].pw = Some((ptr, n, 0));
@@ -523,6 +532,11 @@ impl Host {
                     opts.push(BLOCKED);
                     if m > 1 && self.allow_partial {
                         opts.push(pack(COMPLETED, 1));
+                    }
+                }
+                if self.prefer_blocked {
+                    if let Some(i) = opts.iter().position(|o| *o == BLOCKED) {
+                        opts.swap(0, i);
                     }
                 }
                 let c = opts[choose("stream.read", opts.len())];
@@ -761,6 +775,11 @@ impl Host {
                 if self.allow_peer_drop {
                     opts.push(DROPPED);
                 }
+                if self.prefer_blocked {
+                    if let Some(i) = opts.iter().position(|o| *o == BLOCKED) {
+                        opts.swap(0, i);
+                    }
+                }
                 let c = opts[choose("future.write", opts.len())];
                 match c {
                     BLOCKED => {
@@ -819,7 +838,12 @@ impl Host {
                 }
             }
             Owner::Host => {
-                let opts = if self.futs[fi].host_value.is_some() { vec![COMPLETED, BLOCKED] } else { vec![BLOCKED] };
+                let mut opts = if self.futs[fi].host_value.is_some() { vec![COMPLETED, BLOCKED] } else { vec![BLOCKED] };
+                if self.prefer_blocked {
+                    if let Some(i) = opts.iter().position(|o| *o == BLOCKED) {
+                        opts.swap(0, i);
+                    }
+                }
                 let c = opts[choose("future.read", opts.len())];
                 if c == BLOCKED {
                     self.futs[fi].pr = Some(ptr);
@@ -999,7 +1023,7 @@ impl Host {
     }
 
     pub fn import_call(&mut self, spec: usize, flat: [usize; 3], results_ptr: usize) -> u32 {
-        let opts = [ST_RETURNED, ST_STARTED, ST_STARTING];
+        let opts = if self.prefer_blocked { [ST_STARTING, ST_STARTED, ST_RETURNED] } else { [ST_RETURNED, ST_STARTED, ST_STARTING] };
         let c = opts[choose("import-call", 3)];
         if c == ST_RETURNED {
             let p = self.read_params(spec, flat);
